@@ -1,12 +1,105 @@
-(* C02 - provisional: replaced when the per-node proof files are complete. *)
-From Coq Require Import List ZArith.
+(* C02 - asynchronous timing never changes what lossless pipelines deliver.
+   Statements restated from the proof files by harness/mkprops.py; every theorem quantifies over ALL action
+   lists (schedules of emits, consumer completions, task completions, time advances). *)
+From Coq Require Import List ZArith Bool Arith Permutation Sorted.
 From SZ Require Import Base.Values.
 From SZ Require Import Sync.Nodes.
 From SZ Require Import Async.Core.
-From SZ Require Import Async.Plain.
+From SZ Require Async.BufferProofs.
+From SZ Require Async.DelayProofs.
+From SZ Require Async.RateLimitProofs.
+From SZ Require Async.MapAsyncProofs.
+From SZ Require Async.TimedWindowProofs.
+From SZ Require Async.PartitionTOProofs.
+From SZ Require Async.ZipBPProofs.
+From SZ Require Async.Compose.
 Import ListNotations.
 
-Theorem C02_callback_only_at_zero : forall s m r,
-  In r (rfired (rc_release s m 1)) -> In r (rfired s) \/ (rcnt s r - mocc m r <= 0)%Z /\ (1 <= mocc m r)%Z.
-Proof. exact rfired_release_new. Qed.
-Print Assumptions C02_callback_only_at_zero.
+(* from Async.BufferProofs *)
+Section S_buffer_fifo_BufferProofs.
+Import SZ.Async.BufferProofs.
+Theorem C02_buffer_fifo : forall (n : nat) (sync : bool) (acts : list act) (s : nm_state Buffer.buffer_model) (outs : list (list (Z * val * list mdi) * list nat)), run_steps Buffer.buffer_model (Buffer.b_init n sync) acts = (s, outs) -> deliv_items (all_deliv outs) ++ b_pending s = ins_of acts.
+Proof. exact (@buffer_fifo). Qed.
+End S_buffer_fifo_BufferProofs.
+Print Assumptions C02_buffer_fifo.
+
+(* from Async.DelayProofs *)
+Section S_delay_fifo_DelayProofs.
+Import SZ.Async.DelayProofs.
+Theorem C02_delay_fifo : forall (interval : Z) (sync : bool) (acts : list act) (s : nm_state Delay.delay_model) (outs : list (list (Z * val * list mdi) * list nat)), run_steps Delay.delay_model (Delay.d_init interval sync) acts = (s, outs) -> deliv_items (all_deliv outs) ++ d_pending s = ins_of acts.
+Proof. exact (@delay_fifo). Qed.
+End S_delay_fifo_DelayProofs.
+Print Assumptions C02_delay_fifo.
+
+(* from Async.RateLimitProofs *)
+Section S_rl_fifo_RateLimitProofs.
+Import SZ.Async.RateLimitProofs.
+Theorem C02_rl_fifo : forall (i : Z) (sync : bool) (acts : list act) (s : RateLimit.rst) (outs : list (list (Z * val * list mdi) * list nat)), (0 < i)%Z -> run_steps RateLimit.rate_limit_model (RateLimit.r_init i sync) acts = (s, outs) -> deliv_items (all_deliv outs) ++ r_pending s = ins_of acts.
+Proof. exact (@rl_fifo). Qed.
+End S_rl_fifo_RateLimitProofs.
+Print Assumptions C02_rl_fifo.
+
+(* from Async.MapAsyncProofs *)
+Section S_map_async_order_MapAsyncProofs.
+Import SZ.Async.MapAsyncProofs.
+Theorem C02_map_async_order : forall (p : nat) (sync : bool) (acts : list act) (s : nm_state MapAsync.map_async_model) (outs : list (list (Z * val * list mdi) * list nat)), run_steps MapAsync.map_async_model (MapAsync.m_init p sync) acts = (s, outs) -> deliv_items (all_deliv outs) = map (fun xm : val * list mdi => (MapAsync.task_result (fst xm), snd xm)) (firstn (length (all_deliv outs)) (ins_of acts)).
+Proof. exact (@map_async_order). Qed.
+End S_map_async_order_MapAsyncProofs.
+Print Assumptions C02_map_async_order.
+
+(* from Async.TimedWindowProofs *)
+Section S_tw_conserve_TimedWindowProofs.
+Import SZ.Async.TimedWindowProofs.
+Theorem C02_tw_conserve : forall (i : Z) (sync : bool) (uniq : option ((val -> val) * bool)) (acts : list act) (s : TimedWindow.wst) (outs : list (list (Z * val * list mdi) * list nat)), (0 < i)%Z -> run_steps TimedWindow.timed_window_model (fst (TimedWindow.w_init i sync uniq)) acts = (s, outs) -> uniq = None -> flat_map (fun d : Z * val * list mdi => batch_items (snd (fst d))) (all_deliv (snd (TimedWindow.w_init i sync uniq) :: outs)) ++ map fst (w_items s) = map fst (ins_of acts) /\ flat_map snd (all_deliv (snd (TimedWindow.w_init i sync uniq) :: outs)) ++ flat_map snd (w_items s) = flat_map snd (ins_of acts).
+Proof. exact (@tw_conserve). Qed.
+End S_tw_conserve_TimedWindowProofs.
+Print Assumptions C02_tw_conserve.
+
+(* from Async.TimedWindowProofs *)
+Section S_tw_unique_keys_TimedWindowProofs.
+Import SZ.Async.TimedWindowProofs.
+Theorem C02_tw_unique_keys : forall (i : Z) (sync : bool) (uniq : option ((val -> val) * bool)) (acts : list act) (s : TimedWindow.wst) (outs : list (list (Z * val * list mdi) * list nat)), (0 < i)%Z -> run_steps TimedWindow.timed_window_model (fst (TimedWindow.w_init i sync uniq)) acts = (s, outs) -> forall (key : val -> val) (keep : bool), uniq = Some (key, keep) -> Forall (fun d : Z * val * list mdi => NoDup (map key (batch_items (snd (fst d))))) (all_deliv (snd (TimedWindow.w_init i sync uniq) :: outs)) /\ NoDup (map key (map fst (w_items s))).
+Proof. exact (@tw_unique_keys). Qed.
+End S_tw_unique_keys_TimedWindowProofs.
+Print Assumptions C02_tw_unique_keys.
+
+(* from Async.PartitionTOProofs *)
+Section S_partition_conserve_PartitionTOProofs.
+Import SZ.Async.PartitionTOProofs.
+Theorem C02_partition_conserve : forall (n : nat) (to : option Z) (key : option (val -> val)) (sync : bool) (acts : list act) (s : PartitionTO.pst) (outs : list (list (Z * val * list mdi) * list nat)), 1 <= n -> (forall t : Z, to = Some t -> (0 < t)%Z) -> run_steps PartitionTO.partition_model (PartitionTO.p_init n to key sync) acts = (s, outs) -> key = None -> flat_map (fun d : Z * val * list mdi => tuple_items (snd (fst d))) (all_deliv outs) ++ p_items s = map fst (ins_of acts).
+Proof. exact (@partition_conserve). Qed.
+End S_partition_conserve_PartitionTOProofs.
+Print Assumptions C02_partition_conserve.
+
+(* from Async.ZipBPProofs *)
+Section S_zip_pairs_partial_ZipBPProofs.
+Import SZ.Async.ZipBPProofs.
+Theorem C02_zip_pairs_partial : forall (mx : nat) (sync : bool) (acts : list act) (s : nm_state ZipBP.zip_model) (outs : list (list (Z * val * list mdi) * list nat)), Forall src_ok acts -> run_steps ZipBP.zip_model (ZipBP.z_init mx sync) acts = (s, outs) -> let k := length (all_deliv outs) in map (fun d : Z * val * list mdi => snd (fst d)) (all_deliv outs) = map (fun p : val * list mdi * (val * list mdi) => VTup [fst (fst p); fst (snd p)]) (combine (firstn k (ins_src 0 acts)) (firstn k (ins_src 1 acts))) /\ ZipBP.z_a s = skipn k (ins_src 0 acts) /\ ZipBP.z_b s = skipn k (ins_src 1 acts) /\ (ZipBP.z_a s = [] \/ ZipBP.z_b s = []).
+Proof. exact (@zip_pairs_partial). Qed.
+End S_zip_pairs_partial_ZipBPProofs.
+Print Assumptions C02_zip_pairs_partial.
+
+(* from Async.ZipBPProofs *)
+Section S_zip_pairs_md_ZipBPProofs.
+Import SZ.Async.ZipBPProofs.
+Theorem C02_zip_pairs_md : forall (mx : nat) (sync : bool) (acts : list act) (s : nm_state ZipBP.zip_model) (outs : list (list (Z * val * list mdi) * list nat)), Forall src_ok acts -> run_steps ZipBP.zip_model (ZipBP.z_init mx sync) acts = (s, outs) -> let k := length (all_deliv outs) in map snd (all_deliv outs) = map (fun p : val * list mdi * (val * list mdi) => snd (fst p) ++ snd (snd p)) (combine (firstn k (ins_src 0 acts)) (firstn k (ins_src 1 acts))).
+Proof. exact (@zip_pairs_md). Qed.
+End S_zip_pairs_md_ZipBPProofs.
+Print Assumptions C02_zip_pairs_md.
+
+(* from Async.Compose *)
+Section S_chain_prefix_Compose.
+Import SZ.Async.Compose.
+Theorem C02_chain_prefix : forall (A B C : Type) (f : list A -> list B) (g : list B -> list C) (ins : list A) (mid : list B) (outs : list C), monotone g -> prefix mid (f ins) -> prefix outs (g mid) -> prefix outs (g (f ins)).
+Proof. exact (@chain_prefix). Qed.
+End S_chain_prefix_Compose.
+Print Assumptions C02_chain_prefix.
+
+(* from Async.Compose *)
+Section S_chain_complete_Compose.
+Import SZ.Async.Compose.
+Theorem C02_chain_complete : forall (A B C : Type) (f : list A -> list B) (g : list B -> list C) (ins : list A) (mid : list B) (outs : list C), mid = f ins -> outs = g mid -> outs = g (f ins).
+Proof. exact (@chain_complete). Qed.
+End S_chain_complete_Compose.
+Print Assumptions C02_chain_complete.
+
